@@ -1,6 +1,6 @@
-CONSTANTS Req = {"r1", "r2", "r3"} Backend = {"b1", "b2"} SharedResponseKey = FALSE
+CONSTANTS Req = {"r1", "r3"} Backend = {"b1", "b2"} SharedResponseKey = FALSE ShortRetention = FALSE
 CONSTANT BackendOf <- MCBackendOf
 SPECIFICATION Spec
 CHECK_DEADLOCK FALSE
 INVARIANTS FetchIsRequest ResponseIsOwn OwnBackendOnly
-PROPERTIES CompletedNotListed RespondCompletes
+PROPERTIES CompletedNotListed RespondCompletes CronSparesWaiting QuietBackendsKeepRequests
